@@ -372,6 +372,21 @@ class Ctx:
                         [(c, pth, tuple(simplify(IN.subst(a, sub)) if isinstance(a, tuple) else a for a in ar)) for (c, pth, ar) in elems])
         return self.pushes(body, d)
 
+    def expect_comp(self, rule, key, body, d, src_pat, elem_pat, desc, where=None, n_conds=0, env=None):
+        """obligation: the collection d is ONE comprehension `[elem(x) for x in src]` (push loop, index loop or iterator chain alike,
+        vpa/comp.py) whose source matches src_pat, whose element matches elem_pat over the canonical running element
+        `(index SRC (itervar (range 0 (len SRC))))`, with exactly n_conds filter conditions.  -> env or None"""
+        from . import comp as _C
+        comps = [c for c in _C.comprehensions(self, body, d) if c.get('elem') is not None]
+        e = None
+        if len(comps) == 1 and len(comps[0]['conds']) == n_conds:
+            c = comps[0]
+            e1 = match(src_pat, c['src'], env) if c['src'] is not None else None
+            e = match(elem_pat, c['elem'], e1) if e1 is not None else None
+        self.ob(rule, key, e is not None, desc, where=where or body.file,
+                found=None if e is not None else '; '.join(f"{c['form']}: src={show(c['src']) if c['src'] else None} elem={show(c['elem'])[:200]} conds={len(c['conds'])}" for c in comps) or show(d)[:300])
+        return e
+
     def returned_locals(self, body):
         """locals whose value is moved/copied into the return place (through whole-local copies), found by role not by name"""
         out = set()
